@@ -196,6 +196,9 @@ func installedSets(thorough bool) []installed {
 	out = append(out,
 		installed{name: "custom-name/registry.local:5000", objs: []named{{"my-pkg", "registry.local:5000/" + pkgRepo + ":v1"}}},
 		installed{name: "different-repository/registry.local:5000@digest", objs: []named{{"other", "registry.local:5000/acme/other@sha256:" + strings.Repeat("cd", 32)}}},
+		// A package preloaded into the cache (its source is a file name, not
+		// an image reference) is listed before the custom-named one.
+		installed{name: "preloaded-file-name+custom-name/registry.example.com", objs: []named{{"a-preloaded", "Preloaded_Package.xpkg"}, {"my-pkg", "registry.example.com/" + pkgRepo + ":v1"}}},
 	)
 	if thorough {
 		out = append(out,
